@@ -67,7 +67,7 @@ def replay(path):
         except Exception as e:  # noqa
             v = core._exc_record(fam, case, e)
     else:
-        _, _, v = core.run_case(fam, case)
+        v = core.run_case(fam, case)[2]
     if v is None:
         print('replay %s: case no longer violates %s' % (path, prop))
         return 0
